@@ -10,6 +10,32 @@ use std::time::Instant;
 
 /// root of the verification tree (evidence/, replays/, known_findings.json); `VERIF_DIR` overrides it so
 /// that background runs from a snapshot do not overwrite the live evidence
+/// id of the check that is running (set by `Report::new`): the panic hook needs it when the checked library
+/// brings the whole process down.
+pub static CURRENT_CHECK: Mutex<Option<(String, String)>> = Mutex::new(None);
+
+/// The checked library panicked inside a destructor while another of its destructors was already unwinding
+/// (e.g. both stores of a tracker whose shard worker died): Rust aborts the process, nothing can be caught.
+/// This is a failure of the code under test on an explored input, so it is reported as a violation - with the
+/// first panic as the description - before the abort happens. (On the unchanged tree no execution gets here.)
+pub fn abort_verdict(first_panic: &str) -> ! {
+    let (id, tier) = CURRENT_CHECK.lock().map(|g| g.clone()).unwrap_or(None).unwrap_or(("UNKNOWN".into(), "quick".into()));
+    let dir = format!("{}/replays/{}", verif_dir(), id);
+    let _ = std::fs::create_dir_all(&dir);
+    let path = format!("{dir}/process_abort_0.json");
+    let body = json!({
+        "property": id, "tier": tier, "key": format!("{}/panic-in-a-destructor-during-cleanup", id.to_lowercase()),
+        "what": format!("the library panicked in a destructor while another panic of a destructor was unwinding - the process would abort; first panic: {first_panic}"),
+        "replay": {"note": "re-run the check: the enumeration is deterministic and reaches the same execution"},
+    });
+    let _ = std::fs::write(&path, serde_json::to_string_pretty(&body).unwrap_or_default());
+    println!("VIOLATION property={id} replay={path}");
+    println!("  key={}/panic-in-a-destructor-during-cleanup what=first panic: {}", id.to_lowercase(), first_panic.chars().take(300).collect::<String>());
+    use std::io::Write;
+    let _ = std::io::stdout().flush();
+    std::process::exit(1)
+}
+
 pub fn verif_dir() -> String {
     std::env::var("VERIF_DIR").unwrap_or_else(|_| "/verif".to_string())
 }
@@ -125,6 +151,9 @@ impl Report {
             .ok()
             .and_then(|s| s.parse::<u64>().ok())
             .unwrap_or(0);
+        if let Ok(mut g) = CURRENT_CHECK.lock() {
+            *g = Some((id.to_string(), tier.name().to_string()));
+        }
         Report {
             id: id.to_string(),
             tier,
